@@ -254,6 +254,8 @@ fn cell_alphabet() -> Vec<Data> {
     vec![
         Data::Int(1), Data::Empty, Data::Float(1.5), Data::String("a".into()), Data::String("7".into()),
         Data::String("true".into()), Data::Bool(true), Data::Error(CellErrorType::Div0), Data::Float(0.0), Data::Error(CellErrorType::NA),
+        // a zero-length string is a value, not an absent cell
+        Data::String(String::new()),
     ]
 }
 
